@@ -46,6 +46,8 @@ pub enum Dev {
     InnerUnsupportedType,
     OriginNeverTrusted,
     OriginRemoved,
+    /// trusted when the gateway approved the delivery, removed before it is executed
+    OriginRemovedAfterApproval,
     UnknownToken,
     BadRecipientOrMinter,
     AmountTooLarge,
@@ -56,7 +58,7 @@ pub enum Dev {
     Mutated(super::c10::Mutation),
 }
 
-const DEVS: [Dev; 18] = [
+const DEVS: [Dev; 19] = [
     Dev::NeverApproved,
     Dev::ApprovedOtherPayload,
     Dev::ApprovedOtherId,
@@ -71,6 +73,7 @@ const DEVS: [Dev; 18] = [
     Dev::InnerUnsupportedType,
     Dev::OriginNeverTrusted,
     Dev::OriginRemoved,
+    Dev::OriginRemovedAfterApproval,
     Dev::UnknownToken,
     Dev::BadRecipientOrMinter,
     Dev::AmountTooLarge,
@@ -92,7 +95,7 @@ pub struct Case {
 fn dev() -> impl Strategy<Value = Dev> {
     prop_oneof![
         5 => Just(Dev::None),
-        18 => prop::sample::select(DEVS.to_vec()),
+        19 => prop::sample::select(DEVS.to_vec()),
         1 => (1u8..64).prop_map(Dev::Truncated),
         1 => (1u8..64).prop_map(Dev::Padded),
         8 => super::c10::mutation().prop_map(Dev::Mutated),
@@ -132,7 +135,7 @@ impl Property for C04 {
         "C04"
     }
     fn rule(&self) -> &'static str {
-        "proptest single cases: world = gateway + gas service + ITS (current-source token injected natively) with one ITS-deployed token, one registered canonical token with 500 in custody, an executable probe; a trusted-chain history of 0-6 set/remove operations over 3 chains; a conforming delivery (ReceiveFromHub wrapping a mint / a release / a transfer with data / a deploy with or without minter) and at most one deviation from the statement's list (never approved; approved with other payload / id / source address / destination; already executed; approval re-submitted after execution; source chain not the hub; source address not the hub address; SendToHub wrapper; raw inner message; inner type 2; origin never trusted / removed again; unknown token; undecodable recipient or minter (garbage, well-formed XDR of a string / number / bytes / vector, truncated address); amount 2^127; truncated / padded payload; any byte-level mutation - bit flip, dirty type word or padding, shifted offset, altered length - that leaves a non-canonical encoding). Oracle: effects (exact balance / custody / registry delta, gateway status executed, second delivery refused) iff no deviation; otherwise execute fails and the ledger snapshot is identical (approval still approved, not executed). non-trivial = a deviation is present, or the trust history contains a removal; distinct by Debug hash"
+        "proptest single cases: world = gateway + gas service + ITS (current-source token injected natively) with one ITS-deployed token, one registered canonical token with 500 in custody, an executable probe; a trusted-chain history of 0-6 set/remove operations over 3 chains; a conforming delivery (ReceiveFromHub wrapping a mint / a release / a transfer with data / a deploy with or without minter) and at most one deviation from the statement's list (never approved; approved with other payload / id / source address / destination; already executed; approval re-submitted after execution; source chain not the hub; source address not the hub address; SendToHub wrapper; raw inner message; inner type 2; origin never trusted / removed again / removed between approval and execution; unknown token; undecodable recipient or minter (garbage, well-formed XDR of a string / number / bytes / vector, truncated address); amount 2^127; truncated / padded payload; any byte-level mutation - bit flip, dirty type word or padding, shifted offset, altered length - that leaves a non-canonical encoding). Oracle: effects (exact balance / custody / registry delta, gateway status executed, second delivery refused) iff no deviation; otherwise execute fails and the ledger snapshot is identical (approval still approved, not executed). non-trivial = a deviation is present, or the trust history contains a removal; distinct by Debug hash"
     }
     fn cases(&self, tier: Tier) -> u64 {
         tier.pick(15000, 200000)
@@ -290,6 +293,9 @@ impl Property for C04 {
             _ => w.approve_for_its(source_chain, &mid, source_address, &payload)?,
         }
 
+        if dev == Dev::OriginRemovedAfterApproval {
+            w.untrust(origin);
+        }
         if dev != Dev::None {
             cx.nontrivial();
             cx.label(&format!("dev:{}", format!("{:?}", dev).split('(').next().unwrap()));
